@@ -103,7 +103,7 @@ def unit():
                      (r'for share in inputs\.into_iter\(\) \{', 'for k_ in 0..inputs.len() { let share = &inputs[k_];', 1),      # E4c
                      (r'format!\((?:[^()]|\([^()]*\))*\)', 'fmt_opaque()', '*'), (r'"\.into\(\)', '".to_string()', '*'),
                      (r'share\.verifiers\.iter\(\)\.copied\(\)', '&share.verifiers', 1),
-                     (r'usize::from\(self\.num_aggregators\)', '(self.num_aggregators as usize)', 1),
+                     (r'usize::from\(self\.num_aggregators\)', '(self.num_aggregators as usize)', '*'),
                      (r'for verifier in verifiers\.chunks\(self\.typ_verifier_len\(\)\) \{',
                       'let nchunks_ = chunks_count(verifiers.len(), self.typ_verifier_len()); for c_ in 0..nchunks_ { let verifier = &chunk_at(&verifiers, self.typ_verifier_len(), c_);', 1),   # E4i
                      (r'self\.typ_decide\(verifier\)\?', '(match self.typ_decide(verifier) { Ok(v) => v, Err(e) => { return Err(VdafError::Flp(e)); } })', 1),   # E4d
